@@ -17,6 +17,7 @@ impl ImmutableLeafs {
             r matches Ok((leafs, selected)) ==> ({
                 &&& selected@.union(final(candidates)@) == old(candidates)@
                 &&& selected@.disjoint(final(candidates)@)
+                &&& selected@.len() + final(candidates)@.len() == old(candidates)@.len()
                 &&& leafs.ids() == selected@
                 &&& (old(candidates)@.len() > 0 && min_items >= 1 ==> selected@.len() > 0)
                 // the memory budget never stops the selection before `min_items` items
